@@ -50,8 +50,22 @@ def handleIlv (rest : List String) : String :=
     | _, _, _ => "bad-op"
   | _ => "bad-op"
 
+/-- `table.fmt = s` on a built (`pf = 1`: and printed) table, then print -/
+def handleTset (pf : String) (rest : List String) : String :=
+  match Wire.splitAt rest with
+  | [spec, [f]] =>
+    match Wire.parseSpec spec, parseCps f with
+    | some a, some s =>
+      let t0 : Except Err Tbl := if pf = "1" then (mkTable a >>= render).map (·.1) else mkTable a
+      match t0 >>= (applySetter · s) >>= render with
+      | .ok (_, ls) => "ok " ++ Wire.showLines ls
+      | .error e => "err " ++ e.name
+    | _, _ => "bad-op"
+  | _ => "bad-op"
+
 def handle (line : String) : String :=
   match splitWs line with
+  | "tset" :: pf :: rest => handleTset pf rest
   | "obj" :: pf :: via :: rest => handleObj pf via rest
   | "ilv" :: rest => handleIlv rest
   | "tbl" :: spec =>
